@@ -364,4 +364,145 @@ example : binIs (xmlRead genTables toyR noHints
     (enc (Item.struct 0x420078 [.int 0x42005C (-1), .enum 0x420028 3, .bool 0x540006 true,
       .bytes 0x540008 [0, 255]])) = true := by decide +kernel
 
+/-! ## 7. alternative lexical forms on input normalise (this part also serves C18)
+
+The readers accept more than the writers produce (hexadecimal integers, decimal enumerations,
+`strconv.ParseBool` forms, lower-case hexadecimal, numbers or strings in JSON, masks with mixed names /
+numbers / repeated separators, `TTLV tag=` for named tags, duplicated attributes and members, unread
+children, …).  Whatever they accept, the tree they return is NORMALISED (`read_normal`): every value in
+the range of its Go type, every annotation the reader's own hint.  Hence, if its tags are 24-bit KMIP
+tags and its dates lie in years 1..9999, it is representable, and re-encoding it is a fixed point:
+the writer's document is read back as the same tree (`xml_fixpoint`, `json_fixpoint`), so a second hop
+changes nothing.  WITHOUT the side condition on tags the statement is false of the model — and of the
+library: `Tag()` parses `0x…` with `ParseInt(·, 16, 32)`, so `tag="0x-1"` is accepted as tag −1, which
+is written back as `0xFFFFFFFFFFFFFFFF`, which reads as tag 0 (`xml_fixpoint_full_false`). -/
+
+theorem gen_enum_vals :
+    (Gen.enums.all fun e => e.2.2.all fun p => decide (p.2 < 4294967296)) = true := by decide +kernel
+theorem gen_mask_vals :
+    (Gen.masks.all fun m => m.2.2.all fun p => decide (p.2 < 4294967296)) = true := by decide +kernel
+
+theorem genTables_bounded : genTables.Bounded where
+  enumVals e he p hp := by
+    have := List.all_eq_true.mp (List.all_eq_true.mp gen_enum_vals e he) p hp
+    simpa using this
+  maskVals m hm p hp := by
+    have := List.all_eq_true.mp (List.all_eq_true.mp gen_mask_vals m hm) p hp
+    simpa using this
+
+/-- what the XML reader returns is normalised, whatever the document. -/
+theorem xml_read_normal {T : Tables} (hB : T.Bounded) {R : Rfc3339} {H : Hints} (e : XElem) (t : XItem)
+    (h : xmlRead T R H e = .ok t) : t.normal H = true :=
+  xmlReadToks_normal hB h
+
+theorem json_read_normal {T : Tables} (hB : T.Bounded) {R : Rfc3339} {H : Hints} (j : JVal) (t : XItem)
+    (h : jsonRead T R H j = .ok t) : t.normal H = true :=
+  jsonRead_normal hB h
+
+/-- a normalised tree whose tags and dates are in the domain is representable. -/
+theorem representable_of_normal {H : Hints} (t : XItem) (hn : t.normal H = true) (hd : t.inDomain = true) :
+    t.Representable H :=
+  rep_of_normal H t hn hd
+
+/-- XML: re-encoding ANY accepted document whose decoded tags / dates are in the domain is a fixed point
+    (the decoded tree is read back from its own re-encoding, so the second re-encoding is the first). -/
+theorem xml_fixpoint {T : Tables} (hT : T.WF) (hB : T.Bounded) {R : Rfc3339} (hR : R.Lawful) {H : Hints}
+    (e : XElem) (t : XItem) (h : xmlRead T R H e = .ok t) (hd : t.inDomain = true) :
+    xmlRead T R H (xmlWrite T R t) = .ok t :=
+  xml_roundtrip hT hR t (rep_of_normal H t (xml_read_normal hB e t h) hd)
+
+theorem json_fixpoint {T : Tables} (hT : T.WF) (hB : T.Bounded) {R : Rfc3339} (hR : R.Lawful) {H : Hints}
+    (j : JVal) (t : XItem) (h : jsonRead T R H j = .ok t) (hd : t.inDomain = true) :
+    jsonRead T R H (jsonWrite T R t) = .ok t :=
+  json_roundtrip hT hR t (rep_of_normal H t (json_read_normal hB j t h) hd)
+
+/-- cross-encoding: what one text reader accepted is read back identically from the OTHER text
+    encoding and has one binary encoding. -/
+theorem xml_to_json {T : Tables} (hT : T.WF) (hB : T.Bounded) {R : Rfc3339} (hR : R.Lawful) {H : Hints}
+    (e : XElem) (t : XItem) (h : xmlRead T R H e = .ok t) (hd : t.inDomain = true) :
+    jsonRead T R H (jsonWrite T R t) = .ok t :=
+  json_roundtrip hT hR t (rep_of_normal H t (xml_read_normal hB e t h) hd)
+
+theorem json_to_xml {T : Tables} (hT : T.WF) (hB : T.Bounded) {R : Rfc3339} (hR : R.Lawful) {H : Hints}
+    (j : JVal) (t : XItem) (h : jsonRead T R H j = .ok t) (hd : t.inDomain = true) :
+    xmlRead T R H (xmlWrite T R t) = .ok t :=
+  xml_roundtrip hT hR t (rep_of_normal H t (json_read_normal hB j t h) hd)
+
+/-- observable of a tree with decidable equality: the token stream of its XML encoding. -/
+def obs (t : XItem) : List Tok := (xmlWrite genTables toyR t).toks
+
+/-- "re-encoding the accepted document `e` is stable under a second hop". -/
+def stableXml (e : XElem) : Bool :=
+  match xmlRead genTables toyR noHints e with
+  | .ok t =>
+    match xmlRead genTables toyR noHints (xmlWrite genTables toyR t) with
+    | .ok t' => obs t' == obs t
+    | _ => false
+  | _ => true
+
+def stableJson (j : JVal) : Bool :=
+  match jsonRead genTables toyR noHints j with
+  | .ok t =>
+    match jsonRead genTables toyR noHints (jsonWrite genTables toyR t) with
+    | .ok t' => obs t' == obs t
+    | _ => false
+  | _ => true
+
+/-- C18 for the text back ends IN FULL (generic decoder, generated registry): every accepted document
+    re-encodes to a fixed point. -/
+def xml_fixpoint_full : Prop := ∀ e : XElem, stableXml e = true
+def json_fixpoint_full : Prop := ∀ j : JVal, stableJson j = true
+
+/-- `<TTLV tag="0x-1" type="Integer" value="1"/>` -/
+def negTagXml : XElem :=
+  .mk sTTLV [(sTag, [48, 120, 45, 49]), (sType, typeName 2), (sValue, [49])] []
+
+/-- `{"tag": "0x-1", "type": "Integer", "value": 1}` -/
+def negTagJson : JVal :=
+  .obj [(sTag, .str [48, 120, 45, 49]), (sType, .str (typeName 2)), (sValue, .num 1 true)]
+
+/-- the full statement is FALSE of the model (and of the library at HEAD): the tag text `0x-1`. -/
+theorem xml_fixpoint_full_false : ¬ xml_fixpoint_full :=
+  fun h => absurd (h negTagXml) (by decide +kernel)
+
+theorem json_fixpoint_full_false : ¬ json_fixpoint_full :=
+  fun h => absurd (h negTagJson) (by decide +kernel)
+
+/-- … and TRUE of every document whose decoded tags and dates are in the domain. -/
+theorem xml_fixpoint_partial (e : XElem)
+    (hd : ∀ t, xmlRead genTables toyR noHints e = .ok t → t.inDomain = true) : stableXml e = true := by
+  unfold stableXml
+  cases h : xmlRead genTables toyR noHints e with
+  | ok t =>
+    simp only
+    rw [xml_fixpoint genTables_wf genTables_bounded toyR_lawful e t h (hd t h)]
+    simp
+  | err _ => rfl
+  | panic _ => rfl
+
+theorem json_fixpoint_partial (j : JVal)
+    (hd : ∀ t, jsonRead genTables toyR noHints j = .ok t → t.inDomain = true) : stableJson j = true := by
+  unfold stableJson
+  cases h : jsonRead genTables toyR noHints j with
+  | ok t =>
+    simp only
+    rw [json_fixpoint genTables_wf genTables_bounded toyR_lawful j t h (hd t h)]
+    simp
+  | err _ => rfl
+  | panic _ => rfl
+
+/-- non-vacuity: a document in alternative forms is accepted, in the domain, and stable. -/
+def altXml : XElem :=
+  .mk sTTLV [(sTag, [48, 120, 52, 50, 48, 48, 55, 56])] [
+    .mk [79, 112, 101, 114, 97, 116, 105, 111, 110] [(sType, typeName 2), (sValue, [48, 120, 70, 70, 70, 70, 70, 70, 70, 70])] [],
+    .mk sTTLV [(sTag, [48, 120, 52, 50, 48, 48, 50, 56]), (sType, typeName 5), (sValue, [51])] []]
+
+def inDomainRes (r : Res XItem) : Bool :=
+  match r with
+  | .ok t => t.inDomain
+  | _ => false
+
+example : inDomainRes (xmlRead genTables toyR noHints altXml) = true ∧ stableXml altXml = true := by
+  decide +kernel
+
 end Kmip.C04
